@@ -264,6 +264,7 @@ type handFileOpts struct {
 	EmptyData       bool // interior nodes carry a Data field of length zero
 	ExtraBlockSize  bool // interior nodes declare one block size (0) more than they have links
 	FewerBlockSizes bool // interior nodes record the size of their first child only
+	LeafMtimes      bool // every dag-pb leaf carries a modification time of its own (UnixFS 1.5)
 	HighMode        bool // interior nodes carry a mode with bit 31 set (a legal 32-bit value)
 	PBTsize         int  // Tsize on links to dag-pb children: 0 cumulative, 1 zero, 2 absent, 3 one (Tsize is advisory there)
 }
@@ -284,6 +285,11 @@ func handFile(st *store.Store, chunks [][]byte, o handFileOpts) (cid.Cid, uint64
 		if o.PBLeaves {
 			t := o.LeafType
 			m := &pb.Data{Type: &t, Data: ch, Filesize: proto.Uint64(uint64(len(ch)))}
+			if o.LeafMtimes {
+				secs := int64(1600000000 + 977*len(level))
+				ns := uint32(len(level) * 1000003 % 1000000000)
+				m.Mtime = &pb.IPFSTimestamp{Seconds: &secs, Nanos: &ns}
+			}
 			blk := encodePB(mustMarshal(m), true, nil)
 			c := st.PutBlock(ver, cid.DagProtobuf, blk)
 			level = append(level, nd{c, uint64(len(ch)), uint64(len(blk))})
@@ -418,6 +424,9 @@ func handName(o handFileOpts) string {
 	}
 	if o.FewerBlockSizes {
 		s += "-fewerblocksizes"
+	}
+	if o.LeafMtimes {
+		s += "-leafmtimes"
 	}
 	if o.PBTsize != 0 {
 		s += []string{"", "-tsize0", "-tsizeabsent", "-tsize1"}[o.PBTsize]
